@@ -42,6 +42,33 @@ pub fn ty(t: &Ty) -> Value {
     }
 }
 
+/// literal payload: ints as decimal text (TLC integers are 32-bit), strings as bytes, floats as their shortest decimal text
+fn prim_value(p: &Prim) -> Value {
+    match p {
+        Prim::Unit { .. } => json!({}),
+        Prim::Bool { value } => json!({"bv": value}),
+        Prim::Int8 { value } => json!({"iv": value.to_string()}),
+        Prim::Int16 { value } => json!({"iv": value.to_string()}),
+        Prim::Int32 { value } => json!({"iv": value.to_string()}),
+        Prim::Int64 { value } => json!({"iv": value.to_string()}),
+        Prim::UInt8 { value } => json!({"iv": value.to_string()}),
+        Prim::UInt16 { value } => json!({"iv": value.to_string()}),
+        Prim::UInt32 { value } => json!({"iv": value.to_string()}),
+        Prim::UInt64 { value } => json!({"iv": value.to_string()}),
+        Prim::Float32 { value } => json!({"fv": format!("{}", value)}),
+        Prim::Float64 { value } => json!({"fv": format!("{}", value)}),
+        Prim::String { value } => json!({"sv": value.as_bytes()}),
+    }
+}
+
+fn prim_node(p: &Prim, t: &Ty) -> Value {
+    let mut v = prim_value(p);
+    v["k"] = Value::from("prim");
+    v["pk"] = Value::from(prim_kind(p));
+    v["ty"] = ty(t);
+    v
+}
+
 fn prim_kind(p: &Prim) -> &'static str {
     match p {
         Prim::Unit { .. } => "unit",
@@ -76,7 +103,7 @@ macro_rules! common_arms {
         use $E as X;
         match $e {
             X::EVar { name, ty: t } => Some(json!({"k": "var", "n": name, "res": name, "ty": ty(t)})),
-            X::EPrim { value, ty: t } => Some(json!({"k": "prim", "pk": prim_kind(value), "ty": ty(t)})),
+            X::EPrim { value, ty: t } => Some(prim_node(value, t)),
             X::EConstr { constructor, args, ty: t } => {
                 let (ck, tn, vi) = constr(constructor);
                 Some(json!({"k": "constr", "ck": ck, "tn": tn, "vi": vi, "as": args.iter().map($rec).collect::<Vec<_>>(), "ty": ty(t)}))
@@ -97,7 +124,8 @@ macro_rules! common_arms {
             X::EUnary { op, expr, ty: t } => Some(json!({"k": "un", "op": op.symbol(), "e": $rec(expr), "ty": ty(t)})),
             X::EBinary { op, lhs, rhs, ty: t } => Some(json!({"k": "bin", "op": op.symbol(), "l": $rec(lhs), "r": $rec(rhs), "ty": ty(t)})),
             X::ECall { func, args, ty: t } => Some(json!({"k": "call", "f": $rec(func), "as": args.iter().map($rec).collect::<Vec<_>>(), "ty": ty(t)})),
-            X::EToDyn { trait_name, for_ty, expr, ty: t } => Some(json!({"k": "todyn", "tr": trait_name.0, "for": ty(for_ty), "e": $rec(expr), "ty": ty(t)})),
+            X::EToDyn { trait_name, for_ty, expr, ty: t } => Some(json!({"k": "todyn", "tr": trait_name.0, "for": ty(for_ty), "e": $rec(expr), "ty": ty(t),
+                "implfn": compiler::names::trait_impl_fn_name(trait_name, for_ty, "")})),
             X::EDynCall { trait_name, method_name, receiver, args, ty: t } => Some(json!({"k": "dyncall", "tr": trait_name.0, "m": method_name.0,
                 "recv": $rec(receiver), "as": args.iter().map($rec).collect::<Vec<_>>(), "ty": ty(t)})),
             X::EProj { tuple, index, ty: t } => Some(json!({"k": "proj", "e": $rec(tuple), "i": index, "ty": ty(t)})),
@@ -145,7 +173,7 @@ pub fn lift_expr(e: &lift::LiftExpr) -> Value {
 fn imm(i: &anf::ImmExpr) -> Value {
     match i {
         anf::ImmExpr::ImmVar { name, ty: t } => json!({"k": "var", "n": name, "res": name, "ty": ty(t)}),
-        anf::ImmExpr::ImmPrim { value, ty: t } => json!({"k": "prim", "pk": prim_kind(value), "ty": ty(t)}),
+        anf::ImmExpr::ImmPrim { value, ty: t } => prim_node(value, t),
         anf::ImmExpr::ImmTag { index, ty: t } => json!({"k": "tag", "i": index, "ty": ty(t)}),
     }
 }
@@ -176,7 +204,8 @@ pub fn cexpr(e: &anf::CExpr) -> Value {
         X::EUnary { op, expr, ty: t } => json!({"k": "un", "op": op.symbol(), "e": immb(expr), "ty": ty(t)}),
         X::EBinary { op, lhs, rhs, ty: t } => json!({"k": "bin", "op": op.symbol(), "l": immb(lhs), "r": immb(rhs), "ty": ty(t)}),
         X::ECall { func, args, ty: t } => json!({"k": "call", "f": imm(func), "as": args.iter().map(imm).collect::<Vec<_>>(), "ty": ty(t)}),
-        X::EToDyn { trait_name, for_ty, expr, ty: t } => json!({"k": "todyn", "tr": trait_name.0, "for": ty(for_ty), "e": imm(expr), "ty": ty(t)}),
+        X::EToDyn { trait_name, for_ty, expr, ty: t } => json!({"k": "todyn", "tr": trait_name.0, "for": ty(for_ty), "e": imm(expr), "ty": ty(t),
+            "implfn": compiler::names::trait_impl_fn_name(trait_name, for_ty, "")}),
         X::EDynCall { trait_name, method_name, receiver, args, ty: t } => json!({"k": "dyncall", "tr": trait_name.0, "m": method_name.0,
             "recv": imm(receiver), "as": args.iter().map(imm).collect::<Vec<_>>(), "ty": ty(t)}),
         X::EGo { closure, ty: t } => json!({"k": "go", "e": immb(closure), "ty": ty(t)}),
